@@ -41,7 +41,7 @@ MIN_REACH = {
     "script_executions": {"quick": 35, "thorough": 400},
     "programs_compiled": {"quick": 35, "thorough": 400},
     "cli_runs": {"quick": 4, "thorough": 40},
-    "single_scripts_run_after_the_crop_moved_on": {"quick": 2, "thorough": 8},
+    "single_scripts_run_after_the_crop_moved_on": {"quick": 1, "thorough": 8},
     "array_scripts_with_workers_inside_a_batch": {"quick": 3, "thorough": 30},
     "cli_runs_with_function_in_a_module_beside_the_crop": {"quick": 2, "thorough": 15},
     "partial_state_scripts": {"quick": 12, "thorough": 120},
